@@ -40,7 +40,7 @@ CONFIGS = all_configs()
 
 def generate(seed, stratum, tier):
   rng = random.Random(seed)
-  sc = cc.gen_chart_scenario(rng, combos=[('plain', 'closure')], nops=(4, 25))
+  sc = cc.gen_chart_scenario(rng, combos=[('plain', 'closure')], nops=(4, 25), ops=('ev', 'is_in', 'child'), weights=(8, 1, 1))
   k = 6 if tier == 'quick' else 10
   picks = rng.sample(range(1, len(CONFIGS)), k)
   sc['configs'] = [0] + sorted(picks)
